@@ -22,3 +22,41 @@ impl Rng {
         self.below(den) < num
     }
 }
+
+// ---------------------------------------------------------------------------------------------------------------------
+// `await_if_future!(expr)`: awaits `expr` when it is a future and just evaluates it otherwise, so that the harness
+// keeps compiling when the plugin turns an `async fn` whose result the harness does not need (BlockWatcher::new_block)
+// into a plain function or back (autoref specialisation: the impl for `Wrap<F: Future>` wins over the one for `&Wrap<T>`).
+pub struct Wrap<T>(pub T);
+pub struct IsFut;
+pub struct IsVal;
+pub trait FutTag {
+    fn tag(&self) -> IsFut {
+        IsFut
+    }
+}
+impl<F: std::future::Future> FutTag for Wrap<F> {}
+pub trait ValTag {
+    fn tag(&self) -> IsVal {
+        IsVal
+    }
+}
+impl<T> ValTag for &Wrap<T> {}
+impl IsFut {
+    pub async fn run<F: std::future::Future>(self, w: Wrap<F>) {
+        let _ = w.0.await;
+    }
+}
+impl IsVal {
+    pub async fn run<T>(self, _w: Wrap<T>) {}
+}
+#[macro_export]
+macro_rules! await_if_future {
+    ($e:expr) => {{
+        #[allow(unused_imports)]
+        use $crate::util::{FutTag, ValTag};
+        let w = $crate::util::Wrap($e);
+        let tag = (&w).tag();
+        tag.run(w).await
+    }};
+}
